@@ -490,6 +490,43 @@ MAIN = """
 #[global_allocator]
 static GLOBAL: vmon::alloc::TrackingAlloc = vmon::alloc::TrackingAlloc;
 
+// ---- integer-coded results as a foreign caller sees them: the vtable entry is called directly with a pre-loaded output slot ----
+#[cglue_trait]
+#[int_result]
+pub trait IrSlot {
+    fn rd(&self, ch: u32) -> Result<u64, std::io::Error>;
+    fn rd_pod(&mut self, ch: u32) -> Result<P2, std::io::Error>;
+    #[no_int_result]
+    fn plain(&self, ch: u32) -> u32;
+}
+pub struct IrSlotImp;
+impl IrSlot for IrSlotImp {
+    fn rd(&self, ch: u32) -> Result<u64, std::io::Error> { if ch < 4 { Ok(1000 + ch as u64) } else { Err(std::io::Error::from_raw_os_error(ch as i32)) } }
+    fn rd_pod(&mut self, ch: u32) -> Result<P2, std::io::Error> { if ch < 4 { Ok(P2 { a: ch as u8, b: 77 + ch, c: 1000 + ch as u64, d: -3 }) } else { Err(std::io::Error::from_raw_os_error(ch as i32)) } }
+    fn plain(&self, ch: u32) -> u32 { ch }
+}
+pub fn int_result_slot_checks(rep: &mut gluert::Report) {
+    use cglue::trait_group::GetContainer;
+    use std::mem::MaybeUninit;
+    const LOADED: u64 = 0xdead_beef_0bad_f00d;
+    let mut obj = trait_obj!(IrSlotImp as IrSlot);
+    for ch in [0u32, 3, 4, 22, 0xffff, 0x7fff_ffff] {
+        let rd: unsafe extern "C" fn(_, u32, &mut MaybeUninit<u64>) -> i32 = obj.get_vtbl().rd();
+        let mut slot = MaybeUninit::new(LOADED);
+        let code = unsafe { rd(obj.ccont_ref(), ch, &mut slot) };
+        let after = unsafe { slot.assume_init() };
+        if ch < 4 { if code != 0 || after != 1000 + ch as u64 { rep.violation("GLUE:int-result-direct-call", &format!("rd({}) through the vtable entry: code {}, slot {:#x}", ch, code, after), ""); } }
+        else if code != ch as i32 || after != LOADED { rep.violation("GLUE:int-result-slot-touched", &format!("rd({}) fails with code {}: the caller's output slot held {:#x} before the call and {:#x} after it", ch, code, LOADED, after), ""); }
+        let rdp: unsafe extern "C" fn(_, u32, &mut MaybeUninit<P2>) -> i32 = obj.get_vtbl().rd_pod();
+        let mut slot = MaybeUninit::new(P2 { a: 0xa5, b: 0x5a5a_5a5a, c: LOADED, d: 0x1234 });
+        let code = unsafe { rdp(obj.ccont_mut(), ch, &mut slot) };
+        let after = unsafe { slot.assume_init() };
+        if ch < 4 { if code != 0 || after.a != ch as u8 || after.b != 77 + ch || after.c != 1000 + ch as u64 || after.d != -3 { rep.violation("GLUE:int-result-direct-call", &format!("rd_pod({}) through the vtable entry: code {}, slot {{{}, {:#x}, {:#x}, {}}}", ch, code, after.a, after.b, after.c, after.d), ""); } }
+        else if code != ch as i32 || after.a != 0xa5 || after.b != 0x5a5a_5a5a || after.c != LOADED || after.d != 0x1234 { rep.violation("GLUE:int-result-slot-touched", &format!("rd_pod({}) fails with code {}: the caller's output slot was changed to {{{:#x}, {:#x}, {:#x}, {:#x}}}", ch, code, after.a, after.b, after.c, after.d), ""); }
+        rep.add("int_result_direct_calls", 2);
+    }
+}
+
 fn main() {
     let a: Vec<String> = std::env::args().collect();
     let seed: u64 = a.get(1).and_then(|s| s.parse().ok()).unwrap_or(1);
@@ -499,6 +536,7 @@ fn main() {
     std::panic::set_hook(Box::new(|_| {}));
     let mut rep = gluert::Report::new();
     run_all(seed, nhist, maxlen, &only, &mut rep);
+    if (only.is_empty() || only == "Ir") && !cfg!(miri) { int_result_slot_checks(&mut rep); }
     for v in vmon::alloc::violations() {
         rep.violation(&format!("GLUE:alloc:{}", v.kind), &format!("ptr={:#x} allocated(size={},align={}) freed-as(size={},align={})", v.ptr, v.alloc_size, v.alloc_align, v.free_size, v.free_align), "");
     }
